@@ -786,9 +786,52 @@ def host_cases(ctx):
     return cases
 
 
+def packet_part_cases(ctx):
+    """a packet value as the part of a length-prefix helper, written in place and bound by let first: the prefix declares
+    the packet's byte count and exactly the packet's bytes follow (the packet is also emitted on its own as record 0)"""
+    r = ctx.rng
+    cases = []
+    widths = {"std::len_u8": 1, "std::len_be16": 2, "std::len_be32": 4, "std::len_be64": 8}
+    k = 0
+    for helper, w in sorted(widths.items()):
+        for inline in (True, False):
+            for raw in (True, False):
+                pl = rbytes(r, r.choice([0, 1, 20, 100]))
+                mk = lambda: Call("ipv4::udp::unicast", SOCK("10.1.1.1:5"), SOCK("10.1.1.2:6"), _x=[STR(pl)], **({"raw": True} if raw else {}))
+                c = Case()
+                c.name, c.files, c.text, c.meta = "pp%d" % k, {}, None, []
+                k += 1
+                st = [Import("ipv4"), Import("std"), Do(mk())]
+                if inline:
+                    st.append(Do(Call("ipv4::udp::unicast", SOCK(SRC), SOCK(DST), _x=[Call(helper, mk()), STR(b"end")])))
+                else:
+                    st += [Let("pk", mk()), Do(Call("ipv4::udp::unicast", SOCK(SRC), SOCK(DST), _x=[Call(helper, Ref("pk")), STR(b"end")]))]
+                c.stmts = st
+                c.gen = {"kind": "packet as a length-prefixed part", "w": w, "shape": "%s(%s packet %s)" % (helper, "raw" if raw else "framed", "in place" if inline else "let-bound")}
+                cases.append(c)
+    diff.run_both(ctx, "c15p", cases)
+    for c in cases:
+        ctx.count(c.gen["kind"])
+        if not diff.triage(ctx, c):
+            continue
+        ctx.distinct(c.text)
+        ok, recs = common.pcap_records(c.impl.pcap)
+        if not ok or len(recs) != 2:
+            ctx.fail("packet-part-shape", "two records expected", diff.replay_of(c))
+            continue
+        pk, got = recs[0][4], recs[1][4][42:]
+        want = len(pk).to_bytes(c.gen["w"], "big") + pk + b"end"
+        if got != want:
+            ctx.fail("packet-part", "%s: %d bytes follow a prefix declaring %d; the packet has %d bytes"
+                     % (c.gen["shape"], len(got) - c.gen["w"] - 3, int.from_bytes(got[:c.gen["w"]], "big"), len(pk)), diff.replay_of(c))
+        elif c.impl.pcap != c.model["pcap"]:
+            ctx.fail("payload-differs", "output differs from the model's (%s)" % c.gen["shape"], diff.replay_of(c), disagreement=True)
+
+
 def run(ctx):
     set_workdir("c15")
     host_cases(ctx)
+    packet_part_cases(ctx)
     cases = helper_cases(ctx) + hello_cases(ctx) + nesting_cases(ctx, 4000 if ctx.thorough else 300)
     if ctx.thorough:                    # the boundary and option grids again with fresh contents
         for rep in range(3):
